@@ -56,7 +56,10 @@ func (glyph *SimpleGlyph) Decode() (*GlyphInfo, error) {
 		endPtsOfContours[i] = uint16(buf[2*i])<<8 | uint16(buf[2*i+1])
 	}
 	buf = buf[2*numContours:]
-	numPoints := int(endPtsOfContours[numContours-1]) + 1
+	numPoints := 0
+	if numContours > 0 {
+		numPoints = int(endPtsOfContours[numContours-1]) + 1
+	}
 
 	instructionLength := int(buf[0])<<8 | int(buf[1])
 	if len(buf) < 2+instructionLength {
